@@ -436,29 +436,31 @@ func ruleScoreFlow(c *Ctx) {
 	derived := map[types.Object]string{}
 	ast.Inspect(fd.Body, func(n ast.Node) bool {
 		as, ok := n.(*ast.AssignStmt)
-		if !ok || len(as.Lhs) != 1 || len(as.Rhs) != 1 {
+		if !ok || len(as.Lhs) != len(as.Rhs) {
 			return true
 		}
-		id, ok := as.Lhs[0].(*ast.Ident)
-		if !ok {
-			return true
-		}
-		o := info.Defs[id]
-		if o == nil {
-			o = info.Uses[id]
-		}
-		if mentions(info, as.Rhs[0], oldP) {
-			if derived[o] == "new" {
-				derived[o] = "both"
-			} else if derived[o] == "" {
-				derived[o] = "old"
+		for k := range as.Lhs {
+			id, ok := as.Lhs[k].(*ast.Ident)
+			if !ok {
+				continue
 			}
-		}
-		if mentions(info, as.Rhs[0], newP) {
-			if derived[o] == "old" {
-				derived[o] = "both"
-			} else if derived[o] == "" {
-				derived[o] = "new"
+			o := info.Defs[id]
+			if o == nil {
+				o = info.Uses[id]
+			}
+			if mentions(info, as.Rhs[k], oldP) {
+				if derived[o] == "new" {
+					derived[o] = "both"
+				} else if derived[o] == "" {
+					derived[o] = "old"
+				}
+			}
+			if mentions(info, as.Rhs[k], newP) {
+				if derived[o] == "old" {
+					derived[o] = "both"
+				} else if derived[o] == "" {
+					derived[o] = "new"
+				}
 			}
 		}
 		return true
@@ -500,11 +502,15 @@ func ruleScoreFlow(c *Ctx) {
 	})
 	if sub == "old" {
 		c.ok("ComputeDeltas.remove", subPos, "the applied vote's node loses the old balance")
+	} else if sub == "" {
+		c.unm("ComputeDeltas.remove", subPos, "where the delta removed from the applied vote's node (%s) comes from is not read", subIdx)
 	} else {
 		c.bad("ComputeDeltas.remove", subPos, "the delta removed from the applied vote's node (%s) is derived from the %s balances; it must be the old balance (what was added when the vote was applied)", subIdx, sub)
 	}
 	if add == "new" {
 		c.ok("ComputeDeltas.add", addPos, "the pending vote's node gains the new balance")
+	} else if add == "" {
+		c.unm("ComputeDeltas.add", addPos, "where the delta added to the pending vote's node (%s) comes from is not read", addIdx)
 	} else {
 		c.bad("ComputeDeltas.add", addPos, "the delta added to the pending vote's node (%s) is derived from the %s balances; it must be the new balance (a balance change would otherwise be dropped)", addIdx, add)
 	}
